@@ -856,7 +856,21 @@ func classifyBase(s string, base int) baseInfo {
 	}
 	in.core = t
 	if base == 16 && len(t) >= 2 && t[0] == '0' && (t[1] == 'x' || t[1] == 'X') {
-		in.verdict, in.why = vOpen, "0x prefix with explicit base 16 (strtoul accepts it, the manual is silent)"
+		// The manual is silent on the prefix and strtoul(.., 16) accepts "0x" directly followed by hexadecimal
+		// digits, so such a text stays open. Anything else behind the prefix (nothing, a sign, a blank, a
+		// non-digit) is a numeral under neither reading: strtoul stops at the 'x', the manual has no digit 'x'.
+		rest := t[2:]
+		allHex := rest != ""
+		for i := 0; i < len(rest); i++ {
+			if digitVal(rest[i]) >= 16 {
+				allHex = false
+			}
+		}
+		if allHex {
+			in.verdict, in.why = vOpen, "0x prefix with explicit base 16 (strtoul accepts it, the manual is silent)"
+			return in
+		}
+		in.verdict = vReject
 		return in
 	}
 	if t == "" {
@@ -994,6 +1008,31 @@ func runBase(c *fw.Ctx, h *holder) {
 			if depth > 0 {
 				if c.Mine(idx) {
 					one(string(buf), base)
+				}
+				idx++
+			}
+			if depth == 3 {
+				return
+			}
+			for _, ch := range al {
+				buf = append(buf, ch)
+				rec(depth + 1)
+				buf = buf[:len(buf)-1]
+			}
+		}
+		rec(0)
+	}
+	// behind a 0x / 0X prefix with base 16: every string of length 0-3 over the base-16 alphabet, bare, signed
+	// and blank-wrapped (a prefix must not make a sign, a blank or a non-digit behind it acceptable)
+	{
+		al := baseAlphabet(16)
+		buf := make([]byte, 0, 3)
+		var rec func(depth int)
+		rec = func(depth int) {
+			for _, pre := range []string{"0x", "0X", "-0x", " 0x", "+0X"} {
+				if c.Mine(idx) {
+					c.Count("base_behind_0x_prefix", 1)
+					one(pre+string(buf), 16)
 				}
 				idx++
 			}
